@@ -301,5 +301,29 @@ func famC03(g *Gen, o *Out, n int, thorough bool) {
 			o.Line(fmt.Sprintf("idx kind=rog req=%s codec=%s %s", codec, lc, ld), res)
 			o.Count("idx/rog/" + codec + "/v" + fmt.Sprint(ver))
 		}
+		// the same payload as an index-less CARv2 (an index is then generated from the data window), through
+		// a source that is a ReaderAt and through one that can only Read and Seek
+		if ver == 2 && len(src) == len(arch) {
+			il := indexlessV2(payloadOf(arch), int(dp))
+			ild := fmt.Sprintf("%s roots=%s blocks=%s ver=2 dp=%d pad=0 arch=%s q=%s", io_, roots, blocksStr(bs), dp, hex.EncodeToString(il), cidsStr(qs))
+			for _, sk := range []string{"readerat", "seekonly"} {
+				codec := []string{"sorted", "mh"}[g.pick(2)]
+				ropts := io_.opts()
+				if codec == "sorted" {
+					ropts = append(ropts, carv2.UseIndexCodec(multicodec.CarIndexSorted))
+				}
+				var rs io.ReadSeeker = bytes.NewReader(il)
+				if sk == "seekonly" {
+					rs = struct{ io.ReadSeeker }{rs}
+				}
+				idx, err := carv2.ReadOrGenerateIndex(rs, ropts...)
+				res := "open=" + classifyIdx(err)
+				if err == nil {
+					res += " get=" + queryIndex(idx, qs) + " each=" + eachIndex(idx)
+				}
+				o.Line(fmt.Sprintf("idx kind=rog src=%s codec=%s %s", sk, codec, ild), res)
+				o.Count("idx/rog-indexless/" + sk)
+			}
+		}
 	}
 }
